@@ -80,7 +80,7 @@ func c07ConnText(c *c20Case) string {
 	return ""
 }
 
-var c07PairShapes = []string{"edge", "direct", "branch", "pt-fwd", "pt-bwd", "pt-branch-fwd", "pt-branch-bwd"}
+var c07PairShapes = []string{"edge", "direct", "branch", "pt-fwd", "pt-bwd", "pt-branch-fwd", "pt-branch-bwd", "pt-start-2nd"}
 
 func c07PairCase(shape, a, b string) *c20Case {
 	lam := func(k, t string) c20Op {
@@ -111,6 +111,12 @@ func c07PairCase(shape, a, b string) *c20Case {
 		c.Ops = []c20Op{pt("p"), lam("x", b), lam("y", b),
 			{Op: "branch", S: "p", T: b, Ends: []string{"x", "y"}, Pick: "x"},
 			edge("x", "end"), edge("y", "end"), edge("start", "p")}
+	case "pt-start-2nd":
+		// graph[A -> B]: p typed A from START, and a second predecessor x(A -> any) of p: the edge
+		// x -> p is checked at run time against p's type (A, not the graph's output type B)
+		x := c20Op{Op: "node", Key: "x", In: a, Out: "any", Dyn: c20FirstInhabitant(a)}
+		y := c20Op{Op: "node", Key: "y", In: a, Out: b, Dyn: c20FirstInhabitant(b)}
+		c.Ops = []c20Op{pt("p"), x, y, edge("start", "p"), edge("start", "x"), edge("x", "p"), edge("p", "y"), edge("y", "end")}
 	}
 	c.Ops = append(c.Ops, c20Op{Op: "compile"})
 	return c
